@@ -243,6 +243,33 @@ pub fn check(rep: &mut Report) {
             }
         }
     }
+    // every ordered pair of prefixes on one unit: all 24 metric prefixes on metre / gram / second,
+    // all metric and binary prefixes on bit (long spellings, taken from the parser's own table)
+    {
+        let table = numbat::verif::prefix_table();
+        let metric: Vec<String> = table.iter().filter(|(_, _, k, _)| *k == 'M').map(|(l, _, _, _)| l.to_string()).collect();
+        let binary: Vec<String> = table.iter().filter(|(_, _, k, _)| *k == 'B').map(|(l, _, _, _)| l.to_string()).collect();
+        if metric.len() < 20 || binary.len() < 8 {
+            rep.machinery_error(format!("prefix table: {} metric, {} binary", metric.len(), binary.len()));
+        }
+        let mut with_none = |ps: &Vec<String>| -> Vec<String> {
+            let mut v = vec![String::new()];
+            v.extend(ps.iter().cloned());
+            v
+        };
+        let m0 = with_none(&metric);
+        let mut all = m0.clone();
+        all.extend(binary.iter().cloned());
+        for (unit, prefixes) in [("metre", &m0), ("gram", &m0), ("second", &m0), ("bit", &all)] {
+            for p1 in prefixes.iter() {
+                for p2 in prefixes.iter() {
+                    if p1 != p2 {
+                        cases.push(Case { q: format!("(40.5 * {p1}{unit})"), u: format!("{p2}{unit}"), via: None, k: None });
+                    }
+                }
+            }
+        }
+    }
     let n = cases.len();
     let outs: Vec<Result<String, String>> = par_map(
         n,
